@@ -19,6 +19,8 @@ int mv_v0, mv_v1, mv_vm1, mv_vj;   /* items k, k+1, k-1 and j of the pre-state (
 /* complete mirror of the pre-state ring (physical slots) and of the call's arguments: only used to rebuild the
  * verifier's counterexample as a native Queue<int32> (native/queue_replay.cpp) */
 unsigned int mv_size, mv_count, mv_head; _Bool mv_small; int mv_slot[8]; unsigned int mv_a0, mv_a1; int mv_ai;
+/* MV_NO_MIRROR: jobs that use these contracts for CALLEES (after the caller has already changed the ring) drop the replay
+ * mirror: it only pins otherwise free ghosts that no ensures clause mentions, so the contract is equivalent without it */
 #define Q_MIRROR_SLOT(q, i) ((i) >= (q)->_queueSize || (q)->_queue[i] == mv_slot[i])
 #define Q_MIRROR(q) (mv_size == (q)->_queueSize && mv_count == (q)->_itemCount && mv_head == (q)->_headIndex && \
       mv_small == ((q)->_queue == (q)->_smallQueue) && \
@@ -52,7 +54,11 @@ unsigned int mv_size, mv_count, mv_head; _Bool mv_small; int mv_slot[8]; unsigne
 #ifndef MV_QCAP_POST
 # define MV_QCAP_POST (4 * MV_QCAP + 8)
 #endif
-#define WF_Q_PRE(q) (WF_Q(q) && (q)->_queueSize <= MV_QCAP && Q_SNAP(q) && Q_MIRROR(q))
+#ifdef MV_NO_MIRROR
+# define WF_Q_PRE(q) (WF_Q(q) && (q)->_queueSize <= MV_QCAP && Q_SNAP(q))
+#else
+# define WF_Q_PRE(q) (WF_Q(q) && (q)->_queueSize <= MV_QCAP && Q_SNAP(q) && Q_MIRROR(q))
+#endif
 /* post-state: same well-formedness, stated without is_fresh (the block is whatever the code allocated) */
 #define WF_Q_POST(q) ( \
       (((q)->_queue == (int *)0 && (q)->_queueSize == 0) || \
@@ -198,19 +204,71 @@ __CPROVER_ensures(ST_OK(__CPROVER_return_value) || Q_SAME_VIEW(this))
 ;
 
 /* ---------------- size management ---------------- */
+/* "the storage pointer is exactly p": stated with pointer_in_range_dfcc (lb == ub), because where this contract REPLACES a call the
+ * pointer has just been havocked, and cbmc gives a pointer that is only pinned by == no value set (reads through it see garbage) */
+#define Q_PIN(q, p) (((p) == (int *)0 && (q)->_queue == (int *)0) || ((p) != (int *)0 && __CPROVER_pointer_in_range_dfcc((p), (q)->_queue, (p))))
+#ifdef MV_CALLEE_CONTRACTS     /* see EnsureSizeAux below: was_freed cannot be used where a contract replaces a call */
+# define Q_WAS_FREED(p) 1
+#else
+# define Q_WAS_FREED(p) __CPROVER_was_freed(p)
+#endif
 void Queue_int__Clear(QI *this, _Bool releaseCachedBuffers)
 __CPROVER_requires(WF_Q_PRE(this))
-Q_FRAME(this)
+__CPROVER_assigns(__CPROVER_object_whole(this)) __CPROVER_assigns(this->_queue != (int *)0: __CPROVER_object_whole(this->_queue)) __CPROVER_frees(releaseCachedBuffers: this->_queue)
+/* storage first (callers verified against this contract keep using it): Clear(true) gives a heap block back, everything else
+   keeps exactly the storage it had; a queue living in its inline buffer stays there */
+__CPROVER_ensures((releaseCachedBuffers && __CPROVER_old(this->_queue) != (int *)0 && __CPROVER_old(this->_queue) != this->_smallQueue) ? \
+      (this->_queue == (int *)0 && this->_queueSize == 0 && Q_WAS_FREED(__CPROVER_old(this->_queue))) : \
+      (this->_queue == __CPROVER_old(this->_queue) && Q_PIN(this, __CPROVER_old(this->_queue)) && this->_queueSize == __CPROVER_old(this->_queueSize)))
 __CPROVER_ensures(WF_Q_POST(this))
-__CPROVER_ensures(QN(this) == 0)
-/* Clear(true) gives the heap block back; a queue living in its inline buffer stays there */
-__CPROVER_ensures(!releaseCachedBuffers || (this->_queue == (int *)0 && this->_queueSize == 0) || this->_queue == this->_smallQueue)
+/* empty AND normalised (the next item goes to slot 0: PrimitiveTypeDataArray::TemplatedUnflatten relies on it) */
+__CPROVER_ensures(QN(this) == 0 && this->_headIndex == 0)
 ;
 void Queue_int__FastClear(QI *this)
 __CPROVER_requires(WF_Q_PRE(this))
 Q_FRAME(this)
 __CPROVER_ensures(WF_Q_POST(this))
-__CPROVER_ensures(QN(this) == 0)
+__CPROVER_ensures(QN(this) == 0 && this->_headIndex == 0)
+;
+/* EnsureSizeAux: the worker behind every growing operation.  Never loses one of the first min(N, N') items; on failure
+ * nothing changes; the ring is normalised (head 0) whenever storage changed; the old heap block is either handed to the
+ * caller (retOldArray, still allocated) or released.  The new block is FRESH (is_fresh in the ensures clause), so that
+ * callers verified against this contract know it does not alias anything they hold. */
+#define Q_NEWSTORE(q, ok) ( \
+      ((q)->_queue == __CPROVER_old((q)->_queue) && Q_PIN(q, __CPROVER_old((q)->_queue)) && (q)->_queueSize == __CPROVER_old((q)->_queueSize) && \
+       ((q)->_headIndex == __CPROVER_old((q)->_headIndex) || ((ok) && (q)->_headIndex == 0))) || \
+      ((ok) && (q)->_queueSize == Q_SMALLN && (q)->_headIndex == 0 && __CPROVER_pointer_in_range_dfcc(&(q)->_smallQueue[0], (q)->_queue, &(q)->_smallQueue[0])) || \
+      ((ok) && (q)->_queueSize >= Q_SMALLN && (q)->_queueSize <= MV_QCAP_POST && (q)->_headIndex == 0 && \
+       __CPROVER_is_fresh((q)->_queue, (unsigned long)(q)->_queueSize * sizeof(int))))
+struct status_t Queue_int__EnsureSizeAux(QI *this, unsigned int size, _Bool setNumItems, unsigned int extraPreallocs, int **retOldArray, _Bool allowShrink)
+__CPROVER_requires(WF_Q_PRE(this) && size <= MV_QCAP + 2 && extraPreallocs <= MV_QCAP + 2)
+__CPROVER_requires(retOldArray == (int **)0 || __CPROVER_is_fresh(retOldArray, sizeof(int *)))
+/* the old heap block is only ever written when items are removed (setNumItems) */
+__CPROVER_assigns(__CPROVER_object_whole(this)) __CPROVER_assigns(this->_queue != (int *)0 && setNumItems: __CPROVER_object_whole(this->_queue)) __CPROVER_assigns(retOldArray != (int **)0: *retOldArray)
+__CPROVER_frees(retOldArray == (int **)0: this->_queue)
+/* (one pointer predicate per path: on failure only the first alternative - same storage - is possible) */
+__CPROVER_ensures(Q_NEWSTORE(this, ST_OK(__CPROVER_return_value)) && WF_Q_INDEX(this))
+__CPROVER_ensures(!ST_OK(__CPROVER_return_value) || (this->_queueSize >= size && QN(this) == (setNumItems ? size : __CPROVER_old(QN(this)))))
+__CPROVER_ensures(ST_OK(__CPROVER_return_value) || QN(this) == __CPROVER_old(QN(this)))
+__CPROVER_ensures(mv_k >= QN(this) || mv_k >= __CPROVER_old(QN(this)) || Q_AT(this, mv_k) == mv_v0)
+/* the same at the other mirrored positions k-1, k+1 and j (callers that shift the view by one, e.g. AddHead, need the neighbour) */
+__CPROVER_ensures(mv_k == 0 || mv_k - 1 >= QN(this) || mv_k - 1 >= __CPROVER_old(QN(this)) || Q_AT(this, mv_k - 1) == mv_vm1)
+__CPROVER_ensures(mv_k == 0xffffffffu || mv_k + 1 >= QN(this) || mv_k + 1 >= __CPROVER_old(QN(this)) || Q_AT(this, mv_k + 1) == mv_v1)
+__CPROVER_ensures(mv_j >= QN(this) || mv_j >= __CPROVER_old(QN(this)) || Q_AT(this, mv_j) == mv_vj)
+/* the old heap block: handed over un-freed, or (no out-parameter) released iff it was replaced */
+__CPROVER_ensures(retOldArray == (int **)0 || *retOldArray == (int *)0 || \
+      (*retOldArray == __CPROVER_old(this->_queue) && this->_queue != __CPROVER_old(this->_queue) && __CPROVER_old(this->_queue) != this->_smallQueue))
+__CPROVER_ensures(retOldArray == (int **)0 || *retOldArray != (int *)0 || this->_queue == __CPROVER_old(this->_queue) || __CPROVER_old(this->_queue) == (int *)0 || __CPROVER_old(this->_queue) == this->_smallQueue)
+#define Q_OLD_WAS_HEAP(q) (__CPROVER_old((q)->_queue) != (int *)0 && __CPROVER_old((q)->_queue) != (q)->_smallQueue)
+/* a heap block that stays in use is still allocated ... */
+__CPROVER_ensures(retOldArray != (int **)0 || !Q_OLD_WAS_HEAP(this) || this->_queue != __CPROVER_old(this->_queue) || \
+      __CPROVER_rw_ok(__CPROVER_old(this->_queue), (unsigned long)__CPROVER_old(this->_queueSize) * sizeof(int)))
+#ifndef MV_CALLEE_CONTRACTS
+/* ... and one that was replaced (and not handed over) is released: no leak.  (Dropped where this contract REPLACES a call:
+   cbmc 6.11's replace-mode __CPROVER_was_freed looks the pointer up in the wrong write set and always fails its own
+   precondition check; dropping an ensures conjunct only weakens what callers may assume.) */
+__CPROVER_ensures(retOldArray != (int **)0 || !Q_OLD_WAS_HEAP(this) || __CPROVER_was_freed(__CPROVER_old(this->_queue)) == (this->_queue != __CPROVER_old(this->_queue)))
+#endif
 ;
 /* EnsureSize(n, setNumItems, extra, allowShrink): never loses the first min(N, N') items */
 struct status_t Queue_int__EnsureSize(QI *this, unsigned int numSlots, _Bool setNumItems, unsigned int extraReallocItems, _Bool allowShrink)
@@ -221,6 +279,8 @@ __CPROVER_ensures(!ST_OK(__CPROVER_return_value) || this->_queueSize >= numSlots
 __CPROVER_ensures(!ST_OK(__CPROVER_return_value) || QN(this) == (setNumItems ? numSlots : __CPROVER_old(QN(this))))
 __CPROVER_ensures(ST_OK(__CPROVER_return_value) || QN(this) == __CPROVER_old(QN(this)))
 __CPROVER_ensures(mv_k >= QN(this) || mv_k >= __CPROVER_old(QN(this)) || Q_AT(this, mv_k) == mv_v0)
+/* the head only ever moves to slot 0 (new storage, or everything removed) */
+__CPROVER_ensures(this->_headIndex == __CPROVER_old(this->_headIndex) || this->_headIndex == 0)
 ;
 void Queue_int__Normalize(QI *this)
 __CPROVER_requires(WF_Q_PRE(this))
